@@ -378,6 +378,53 @@ def source_digest(files):
     return h.hexdigest()[:16]
 
 
+def _ast_digest(path):
+    """digest of the *code* of a Python source file: comments, blank lines and docstrings do not count"""
+    import ast
+    try:
+        src = open(path, "rb").read()
+    except OSError:
+        return "<missing>"
+    try:
+        tree = ast.parse(src)
+    except SyntaxError:
+        return "<syntax-error>"
+    for node in ast.walk(tree):
+        body = getattr(node, "body", None)
+        if isinstance(body, list) and body and isinstance(body[0], ast.Expr) and \
+                isinstance(getattr(body[0], "value", None), ast.Constant) and isinstance(body[0].value.value, str):
+            body[0].value.value = ""
+    return hashlib.sha256(ast.dump(tree, annotate_fields=False).encode("utf-8")).hexdigest()[:20]
+
+
+def anchors_changed(anchors):
+    """the anchored source files whose code is not what `anchors.lock.json` records (the tree the models, the budgets and
+    the generators were tuned on).  A change is no alarm: it only tells the check to look harder (`budget_scale`)."""
+    try:
+        lock = json.load(open(os.path.join(VERIF, "anchors.lock.json"), encoding="utf-8"))
+    except (OSError, ValueError):
+        return []
+    return [f for f in anchors if lock.get(f) != _ast_digest(os.path.join(REPO, f))]
+
+
+def budget_scale(anchors, tier, report=None):
+    """1 on the recorded tree; VERIF_ESCALATE (default 4 quick / 2 thorough) when the code of an anchored file changed:
+    a change on the property's path deserves a deeper correspondence run than the every-commit budget"""
+    changed = anchors_changed(anchors)
+    if report is not None:
+        report.extra["anchored_sources_changed"] = changed
+    if not changed:
+        return 1
+    try:
+        k = int(os.environ.get("VERIF_ESCALATE", "4" if tier == "quick" else "2"))
+    except ValueError:
+        k = 4
+    k = max(1, k)
+    if report is not None:
+        report.extra["budget_scale"] = k
+    return k
+
+
 class Report:
     """collects what a run did and writes evidence / replay / verdict lines"""
 
